@@ -121,6 +121,18 @@ def cmd_table():
     for r in rows:
         print(" | ".join(str(x) for x in r))
 
+def cmd_designtable():
+    print("| id | breaks | change (as described by its author) | needs | verified | caught by (quick tier) |")
+    print("|---|---|---|---|---|---|")
+    for f in sorted(glob.glob(f"{V}/seeded/*/meta.json")):
+        m = json.load(open(f))
+        def short(t, n):
+            t = " ".join(str(t).split()).replace("|", "/")
+            return t if len(t) <= n else t[: n - 1] + "…"
+        note = m.get("note", "")
+        caught = ", ".join(m.get("detected_by", [])) or ("— " + note if note else "—")
+        print(f"| {m.get('id')} | {m.get('property')} | {short(m.get('summary', ''), 150)} | {short(m.get('needs', ''), 110)} | {'yes' if m.get('verify', {}).get('ok') else 'no'} | {caught} |")
+
 if __name__ == "__main__":
     a = sys.argv[1:]
     if not a: print(__doc__); sys.exit(2)
@@ -128,5 +140,6 @@ if __name__ == "__main__":
     elif a[0] == "verify": cmd_verify(a[1:])
     elif a[0] == "detect": cmd_detect(a[1], a[2:])
     elif a[0] == "table": cmd_table()
+    elif a[0] == "designtable": cmd_designtable()
     elif a[0] == "clean":
         sh(f"git -C /repo worktree remove --force {WT}"); sh(f"rm -rf {V}/target/default-mut {V}/target/miniwasm-mut {V}/target/shards-mut")
